@@ -104,7 +104,7 @@ def _replay_all(rep, st, pid, tag, classes, sample_every=None, on_sample=None):
     return counts
 
 
-def _validate(rep, recs, name, site_of):
+def _validate(rep, recs, name, site_of, environment=()):
     if not recs:
         if rep.violations:
             rep.part(name + "_records", note="no record could be made: every recorded call failed (see the violations)")
@@ -116,6 +116,9 @@ def _validate(rep, recs, name, site_of):
     for i, clauses in bad.items():
         info = [c for c in clauses if c.startswith("info_")]
         hard = [c for c in clauses if not c.startswith("info_")]
+        if set(hard) & set(environment):
+            raise MachineryError(f"{name}: a recorded third-party builder differs from the modelled library version (record {i}: {hard}): "
+                                 f"{str(recs[i])[:600]}")
         for c in info:
             O._bump(rep, "information_clauses_false", f"{recs[i]['fn']}.{c}")
         if hard:
